@@ -5,8 +5,10 @@ import (
 	"fmt"
 	"os"
 	"sort"
+	"strconv"
 	"time"
 
+	"qverif/checks"
 	"qverif/core"
 	"qverif/engine"
 	"qverif/spec"
@@ -14,16 +16,74 @@ import (
 
 func main() {
 	if len(os.Args) < 2 {
-		fmt.Println("usage: qverif ops|check ...")
+		fmt.Println("usage: qverif check -prop Cxx [-tier quick|thorough] | qverif ops [-m Method]")
 		os.Exit(2)
 	}
 	switch os.Args[1] {
 	case "ops":
 		opsCmd(os.Args[2:])
+	case "check":
+		os.Exit(checkCmd(os.Args[2:]))
+	case "list":
+		for _, id := range checks.IDs() {
+			fmt.Println(id, checks.Lookup(id).Desc)
+		}
 	default:
 		fmt.Println("unknown command")
 		os.Exit(2)
 	}
+}
+
+func checkCmd(args []string) int {
+	fs := flag.NewFlagSet("check", flag.ExitOnError)
+	prop := fs.String("prop", "", "property id")
+	tier := fs.String("tier", "", "quick|thorough")
+	repo := fs.String("repo", "/repo", "repository root")
+	verif := fs.String("verif", "/verif", "verif root (evidence, known findings)")
+	fs.Parse(args)
+	if *tier == "" {
+		*tier = os.Getenv("VERIF_TIER")
+	}
+	if *tier != "thorough" {
+		*tier = "quick"
+	}
+	var seed int64
+	if s := os.Getenv("VERIF_SEED"); s != "" {
+		seed, _ = strconv.ParseInt(s, 10, 64)
+	}
+	pc := checks.Lookup(*prop)
+	if pc == nil {
+		fmt.Printf("UNDECIDED property=%s no check registered\n", *prop)
+		return 2
+	}
+	start := time.Now()
+	rep := core.NewReport(*prop, *tier)
+	known, kerr := core.LoadKnownFindings(*verif + "/known_findings.jsonl")
+	if kerr != nil {
+		fmt.Println("known findings:", kerr)
+		return 2
+	}
+	p, err := core.Load(*repo)
+	if err != nil {
+		return rep.Finish(*verif, known, seed, start, err)
+	}
+	if len(p.Pkgs) < 13 {
+		return rep.Finish(*verif, known, seed, start, fmt.Errorf("only %d packages loaded, expected >= 13", len(p.Pkgs)))
+	}
+	a, err := spec.ResolveAnchors(p)
+	if err != nil {
+		return rep.Finish(*verif, known, seed, start, fmt.Errorf("anchor resolution: %w", err))
+	}
+	ctx := &checks.Ctx{P: p, A: a, R: rep, Tier: *tier, Seed: seed}
+	func() {
+		defer func() {
+			if r := recover(); r != nil {
+				rep.Undecide("checker", "internal", "panic", "", fmt.Sprint("checker panicked: ", r))
+			}
+		}()
+		pc.Run(ctx)
+	}()
+	return rep.Finish(*verif, known, seed, start, nil)
 }
 
 func opsCmd(args []string) {
